@@ -6,6 +6,8 @@ import glob, json, os, subprocess, sys, tempfile
 from concurrent.futures import ThreadPoolExecutor
 HERE = os.path.dirname(os.path.dirname(os.path.abspath(__file__)))
 EXPECTED_MISSED = {"C08", "C04c", "C04d"}
+# deep restructurings of round 2 that still raise an alarm (documented limits, DESIGN App. C)
+EXPECTED_ALARM = {"MC04-n1", "MC07-n1", "MC07-n3", "MC11-n1", "MC11-n3"}
 
 def one(job):
     kind, name, patch, prop = job
@@ -25,7 +27,8 @@ def main():
     for m in sorted(glob.glob(os.path.join(HERE, "seeded", "*", "meta.json"))):
         d = json.load(open(m))
         jobs.append(("seed", d["id"], os.path.join(os.path.dirname(m), "patch.diff"), d["property"]))
-    for p in sorted(glob.glob(os.path.join(HERE, "mutants", "patches", "neutral", "N*-n*.diff"))):
+    for p in sorted(glob.glob(os.path.join(HERE, "mutants", "patches", "neutral", "N*-n*.diff"))) + \
+            sorted(glob.glob(os.path.join(HERE, "mutants", "patches", "neutral2", "M*-n*.diff"))):
         b = os.path.basename(p)
         jobs.append(("neutral", b[:-5], p, b[1:4]))
     bad = 0
@@ -36,7 +39,7 @@ def main():
                 ok = (st == "caught") != (name in EXPECTED_MISSED)
                 label = "caught" if st == "caught" else ("missed" if st == "MISSED" else st)
             else:
-                ok = st == "MISSED"
+                ok = (st == "MISSED") != (name in EXPECTED_ALARM)
                 label = "silent" if st == "MISSED" else ("ALARM" if st == "caught" else st)
             bad += 0 if ok else 1
             print("%-8s %-10s %-4s %-7s %s %s" % (kind, name, prop, label, "" if ok else "<== UNEXPECTED", "; ".join(k[:110] for k in r.get("keys", [])[:3])))
